@@ -172,6 +172,12 @@ func verifHarness_C06_serve() {
 	}
 	var sawAllowed []string
 	nfRan, naRan := false, false
+	if !custom && (cfg/2)%3 == 1 {
+		// the setters called without any handler (dropping custom handlers, or an empty list
+		// expanded with ...) leave the built-in answers in place
+		r.NotFound()
+		r.NotAllowed()
+	}
 	if custom {
 		r.NotFound(func(c *Context) { nfRan = true })
 		r.NotAllowed(func(c *Context) {
